@@ -81,6 +81,23 @@ Example C10_example :
                 map bn (fblocks f') = [3; 4; 6; 3; 2]%Z /\ map bfn (fblocks f') = [Fwait; Framp; Fwait; Fua; Framp].
 Proof. exact delay_example. Qed.
 
+(* The quantifier of C10 ("delays that are whole numbers of samples") also admits paddings of exactly ONE sample,
+   which the two theorems above exclude (kd, kp in {0} U [2, oo)).  There the full statement is FALSE of the faithful
+   model, and of the code (two open known findings, known_findings.json: one-sample-pre-padding,
+   one-sample-post-padding): the padding is a blueprint segment and a segment needs two samples.  Witnesses computed
+   in the model; the same inputs are corpus/C10/kf_*.json and are replayed on the implementation by every run. *)
+Theorem C10_one_sample_pre_padding_refuted :
+  exists b SR d M f, 0 < SR /\ bp_wf b /\ length (names b) = length (funs b) /\ forge_bp_with b SR (durs b) = Ok f /\
+    0 <= d /\ d <= M /\ d * SR == inject_Z 1 /\ (M - d) * SR == inject_Z 2 /\
+    exists b', delay_bp b d M = Ok b' /\ forge_bp_with b' SR (durs b') = Err ESegDur.
+Proof. exact one_sample_pre_padding_refuted. Qed.
+
+Theorem C10_one_sample_post_padding_refuted :
+  exists b SR d M f, 0 < SR /\ bp_wf b /\ length (names b) = length (funs b) /\ forge_bp_with b SR (durs b) = Ok f /\
+    0 <= d /\ d <= M /\ d * SR == inject_Z 2 /\ (M - d) * SR == inject_Z 1 /\
+    exists b', delay_bp b d M = Ok b' /\ forge_bp_with b' SR (durs b') = Err ESegDur.
+Proof. exact one_sample_post_padding_refuted. Qed.
+
 Print Assumptions C10_shift_blueprint.
 Print Assumptions C10_padding_args.
 Print Assumptions C10_shift_arrays.
@@ -89,3 +106,5 @@ Print Assumptions C10_paths_agree_blueprint.
 Print Assumptions C10_paths_agree_arrays.
 Print Assumptions C10_zero_delay.
 Print Assumptions C10_zero_delay_arrays.
+Print Assumptions C10_one_sample_pre_padding_refuted.
+Print Assumptions C10_one_sample_post_padding_refuted.
